@@ -35,6 +35,8 @@ carriers    the same argument value carried by another numeric type: the merge f
             integer, keyword or positional; species / sample / linear cell index as numpy integers; (x,y,z) as
             numpy arrays / tuples / lists / objects of numpy int8..int64 scalars on grids (4x5x7, 5x5x6, 8x8x8) whose
             linear index does not fit the narrow dtypes.  A rejected carrier is counted; a wrong value is a violation.
+network-edited   the network's species list (permuted / extended), reactions or environments assigned through
+            the documented setters before the trajectory is built or on trajectory.system.network afterwards.
 simulated   (small) the same accessor checks on trajectories produced by the Euler engine for a network
             without reactions and without diffusion (every sample equals the initial state).
 
@@ -132,13 +134,14 @@ def _mk_traj(ns, nsp, nc, space, variant):
     return tr, data, qunit
 
 
-def _species_arg(form, s):
+def _species_arg(form, s, labels=None):
+    labels = LABELS if labels is None else labels
     if form == "label":
-        return LABELS[s]
+        return labels[s]
     if form == "index":
         return s
     if form == "object":
-        return Species(LABELS[s], density=s + 1)
+        return Species(labels[s], density=s + 1)
     raise ValueError(form)
 
 
@@ -237,12 +240,13 @@ def _merged(valf, ns, nc, s):
 
 
 def _check_accessors(tr, ns, nsp, nc, space, qunit, spform, posform, out, stats, triple=None, rev=False, prefix="",
-                     valf=None, only_sites=None, suffix="", note=""):
+                     valf=None, only_sites=None, suffix="", note="", labels=None):
     """all accessor reads of one trajectory for one species form and one position form.
     rev: visit samples / species / cells in decreasing order; prefix / suffix: added to the site / end of the keys;
     valf(sample, species, cell): expected value (default: the construction value); only_sites: restrict the reads
     to these accessors; note: text put in front of the messages (the history that led here)."""
     ck = _Checker(out, stats, prefix, suffix, note)
+    labels = LABELS if labels is None else labels
     if valf is None:
         valf = val
     want = (lambda site: True) if only_sites is None else (lambda site: site in only_sites)
@@ -266,12 +270,12 @@ def _check_accessors(tr, ns, nsp, nc, space, qunit, spform, posform, out, stats,
             ck.vector("get_state_whole", kind, got, exp, qunit, "%s get_state(None, %d)" % (desc, k))
 
     for s in speciess:
-        sp = _species_arg(spform, s)
+        sp = _species_arg(spform, s, labels)
         # per-sample state
         for k in samples:
             if not want("get_state"):
                 break
-            c_ = "%s get_state(%r, %d)" % (desc, sp if spform != "object" else "Species(%s)" % LABELS[s], k)
+            c_ = "%s get_state(%r, %d)" % (desc, sp if spform != "object" else "Species(%s)" % labels[s], k)
             ok, got = ck.call("get_state", stag, c_, lambda: tr.get_state(sp, k))
             if ok:
                 ck.vector("get_state", stag, got, [valf(k, s, c) for c in range(nc)], qunit, c_)
@@ -639,7 +643,8 @@ def _apply_data_mod(tr, kind, rnd, stats):
 def _read_all(tr, ns, nsp, nc, space, first, out, stats, note, suffix, prefix="modify-"):
     """first reader (one accessor, all triples), then every accessor in two form combinations; the reference is
     direct indexing of the CURRENT data and its current units (the statement's own formulation)."""
-    live = [float(x) for x in tr.data.value]
+    import numpy as np
+    live = [float(x) for x in np.asarray(tr.data.value, dtype=float).ravel()]
     if len(live) != ns * nsp * nc:
         out.append(("C17:%sdata:wrong-length:%s" % (prefix, suffix), "%sdata has %d entries, expected %d" % (note, len(live), ns * nsp * nc)))
         return
@@ -835,6 +840,8 @@ def _check_provenance(case, out, stats):
             # whether the producer accepts the script / map is C16's and C10's business
             stats["provenance_producer_raised"] += 1
             return
+    import numpy as np
+    src_len = (len(np.asarray(tr.data.value).ravel()), len(np.asarray(tr.t.value).ravel()))
     if post in ("save-load-separate", "save-load-inline"):
         tmp = tempfile.mkdtemp(prefix="c17prov_")
         try:
@@ -849,11 +856,29 @@ def _check_provenance(case, out, stats):
     elif post == "deepcopy":
         tr = copy.deepcopy(tr)
         note += " -> copy.deepcopy"
-    nt = len(tr.t.value)
-    if len(tr.data.value) != nt * nsp * nc:
+    dv, tv = np.asarray(tr.data.value), np.asarray(tr.t.value)
+    nt = int(tv.size)
+    if dv.size != nt * nsp * nc:
         stats["provenance_unexpected_data_length"] += 1      # what the producer records is C09's / C16's
         return
     stats["provenance_trajectories_read"] += 1
+    # direct indexing at sample x nspecies x ncells + species x ncells + cell needs FLAT data and times
+    stats["evaluations"] += 2
+    try:
+        ld, lt = len(tr.data), len(tr.t)
+    except Exception as e:
+        ld = lt = "%s: %s" % (type(e).__name__, e)
+    if dv.ndim != 1 or ld != nt * nsp * nc:
+        out.append(("C17:provenance-data:not-flat:%s" % suffix,
+                    "%s: data.value has shape %r and len(data) = %r; direct indexing at sample*nspecies*ncells + "
+                    "species*ncells + cell needs a flat array of %d x %d x %d = %d numbers"
+                    % (note, tuple(dv.shape), ld, nt, nsp, nc, nt * nsp * nc)))
+    if tv.ndim != 1 or lt != nt:
+        out.append(("C17:provenance-t:not-flat:%s" % suffix, "%s: t.value has shape %r and len(t) = %r"
+                    % (note, tuple(tv.shape), lt)))
+    if post != "direct" and (int(dv.size), nt) != src_len:
+        out.append(("C17:provenance-data:size-differs-from-source:%s" % suffix,
+                    "%s: (data size, number of samples) = %r, the source trajectory had %r" % (note, (int(dv.size), nt), src_len)))
     stats["evaluations"] += 1
     try:
         shape = (tr.nsamples(), tr.nspecies(), tr.ncells())
@@ -1006,6 +1031,80 @@ def _check_coord_carrier(case, out, stats):
                     stats["carrier_accepted"] += 1
                     ck.scalar("get_trajectory_point", "grid", got, live[k], "molecule", c_)
 
+
+# ---- network edited through its setters ----------------------------------------------------------------
+
+def _net_edits(nsp):
+    """edits of a network whose FINAL species list has nsp species (labels LABELS[:nsp] in some order)."""
+    eds = [["permute", list(p)] for p in itertools.permutations(range(nsp)) if list(p) != list(range(nsp))]
+    if nsp >= 2:
+        eds += [["extend-back"], ["extend-front"]]
+    eds += [["reactions-setter"], ["environments-setter"]]
+    return eds
+
+
+def _check_network_edited(case, out, stats):
+    """the species list (or reactions / environments) is assigned through the documented RDNetwork setters, before
+    the system and the trajectory are built ('pre') or on trajectory.system.network afterwards ('post'); a species
+    label / object means the species at that label's position in the network's CURRENT species list, so label,
+    index and object forms must agree with direct indexing."""
+    from strengths.rdnetwork import Reaction
+    ns, nsp, nc, space, edit, when = case["ns"], case["nsp"], case["nc"], case["space"], case["edit"], case["when"]
+    kind = edit[0]
+    final = list(LABELS[:nsp])                     # label of the species at each index after the edit
+
+    def sp_obj(lbl):
+        return Species(lbl, density=LABELS.index(lbl) + 1)
+
+    def apply(net):
+        nonlocal final
+        if kind == "permute":
+            cur = list(net.species)
+            net.species = [cur[i] for i in edit[1]]
+            final = [LABELS[i] for i in edit[1]]
+            return "network.species = the same Species in the order %r" % (final,)
+        if kind == "reactions-setter":
+            net.reactions = [Reaction("%s -> %s" % (LABELS[0], LABELS[nsp - 1]), kf=1, kr=1)] if nsp >= 2 else []
+            return "network.reactions = [...]"
+        if kind == "environments-setter":
+            net.environments = ["", "second"]
+            return "network.environments = ['', 'second']"
+        raise ValueError(kind)
+    if kind in ("extend-back", "extend-front"):
+        if when != "pre":
+            stats["network_edit_not_determined"] += 1
+            return
+        # built with nsp-1 species, the setter then installs the nsp-species list
+        base = final[:-1] if kind == "extend-back" else final[1:]
+        net = RDNetwork(species=[sp_obj(l) for l in base], reactions=[])
+        net.species = ([net.species[i] for i in range(nsp - 1)] + [sp_obj(final[-1])]) if kind == "extend-back" else \
+            ([sp_obj(final[0])] + [net.species[i] for i in range(nsp - 1)])
+        what = "RDNetwork(%r); network.species = %r" % (base, final)
+    else:
+        net = RDNetwork(species=[sp_obj(l) for l in final], reactions=[])
+        what = "RDNetwork(%r)" % (final,)
+        if when == "pre":
+            what += "; " + apply(net)
+    stats["transitions"] += 1
+    data = [val(k, s, c) for k in range(ns) for s in range(nsp) for c in range(nc)]
+    try:
+        system = RDSystem(net, _mk_space(space))
+        tr = RDTrajectory(UnitArray(data, "molecule"), UnitArray([float(k) for k in range(ns)], "s"), system)
+        what += "; system, trajectory built"
+        if when == "post":
+            what += "; trajectory.system." + apply(tr.system.network)
+    except Exception as e:
+        stats["network_edit_rejected"] += 1        # whether an edited network is accepted is not C17's business
+        return
+    stats["network_edits_read"] += 1
+    suffix = "%s:%s" % (kind, when)
+    note = "after [%s]:" % what
+    grid = space[0] == "grid"
+    for spform, posform, rev in (("label", "index", False), ("index", "index", False),
+                                 ("object", "tuple" if grid else "index", True)):
+        _check_accessors(tr, ns, nsp, nc, space, "molecule", spform, posform, out, stats, rev=rev, prefix="netedit-",
+                         suffix=suffix, note=note + " ", labels=final)
+
 # ---- unknown species -------------------------------------------------------------------------------
 
 def _check_unknown(case, out, stats):
@@ -1095,7 +1194,8 @@ _STAT_KEYS = ("transitions", "evaluations", "near_tie", "near_tie_not_lattice_an
               "history_steps_refuting_a_cache_on_number", "modify_steps_reflected_by_direct_indexing",
               "modify_steps_NOT_reflected_by_direct_indexing", "provenance_producer_raised",
               "provenance_save_load_raised", "provenance_unexpected_data_length", "provenance_trajectories_read",
-              "carrier_accepted", "carrier_rejected", "carrier_coordinates_do_not_fit")
+              "carrier_accepted", "carrier_rejected", "carrier_coordinates_do_not_fit",
+              "network_edits_read", "network_edit_rejected", "network_edit_not_determined")
 
 
 def _new_stats():
@@ -1126,6 +1226,8 @@ def check_case(case, stats=None):
             _check_lookup_modify(case, out, stats)
         elif sub == "provenance":
             _check_provenance(case, out, stats)
+        elif sub == "network-edited":
+            _check_network_edited(case, out, stats)
         elif sub == "flag-carrier":
             _check_flag_carrier(case, out, stats)
         elif sub == "index-carrier":
@@ -1353,6 +1455,26 @@ def _spaces(tier):
                "transposed grid) - x grids %s x {direct, save+load (data separate / inline), deepcopy} x %d first readers; "
                "every accessor against direct indexing on the caller's grid" % (pengines, pgrids, len(pfirst)),
                gen_prov, len(pgrids) * (len(PRODUCERS) * len(pengines) + len(CTOR_MISMATCH)) * len(POSTS) * len(pfirst), 3))
+
+    # ---- network edited through its setters
+    if tier == "thorough":
+        nshapes = [(sh, sp_) for sh in shapes() for sp_ in arrangements(sh[2])]
+    else:
+        nshapes = [(sh, sp_) for sh in [(1, 1, 1), (2, 2, 2), (2, 3, 2), (3, 3, 3)] for sp_ in (["grid", sh[2], 1, 1], ["graph", sh[2]])]
+
+    def gen_netedit():
+        for ((ns, nsp, nc), space) in nshapes:
+            for edit in _net_edits(nsp):
+                for when in ("pre", "post"):
+                    if when == "post" and edit[0].startswith("extend"):
+                        continue           # a longer species list no longer matches the data: not determined
+                    yield {"sub": "network-edited", "ns": ns, "nsp": nsp, "nc": nc, "space": space, "edit": edit, "when": when}
+    n_net = sum(2 * len(_net_edits(sh[1])) - (2 if sh[1] >= 2 else 0) for (sh, sp_) in nshapes)
+    sp.append(("network-edited: %d (shape, arrangement) x [every non-identity permutation of the species list, a species "
+               "added at the back / front, reactions setter, environments setter] assigned through the RDNetwork setters "
+               "before the system and trajectory are built, and (permutations, reactions, environments) on "
+               "trajectory.system.network afterwards; label / index / object forms against direct indexing" % len(nshapes),
+               gen_netedit, n_net, 12))
 
     # ---- argument carriers
     if tier == "thorough":
